@@ -202,7 +202,7 @@ impl Check for Registries {
         true
     }
     fn probes(&self, _prop: &str) -> std::vec::Vec<&'static str> {
-        vec!["probe.bucket_boundary_crossed", "probe.issuer_limit_reached", "probe.registry_limit_reached", "probe.topic_limit_reached"]
+        vec!["probe.bucket_boundary_crossed", "probe.issuer_limit_reached", "probe.registry_limit_reached", "probe.topic_limit_reached", "probe.keys_per_topic_limit_reached", "probe.full_topic_existing_key_again"]
     }
     fn generate(&self, rng: &mut Rng, tier: Tier) -> (Cfg, std::vec::Vec<Step>) {
         let kind = *rng.pick(&[Kind::Docs, Kind::Binder, Kind::Cti, Kind::Keys]);
@@ -221,6 +221,24 @@ impl Check for Registries {
         let mut topics: BTreeSet<u32> = BTreeSet::new();
         let mut triples: BTreeSet<(u32, u32, u32)> = BTreeSet::new();
         let focus_key = rng.below(3) as u32;
+        // limit scenario for the keys registry (a fifth of its runs): one topic filled to MAX_KEYS_PER_TOPIC distinct keys,
+        // one more refused, then keys that are already in the full topic allowed for further registries (must succeed),
+        // one removed and a new one admitted
+        if kind == Kind::Keys && rng.chance(20) {
+            let t = rng.below(5) as u32;
+            for j in 0..50u32 {
+                steps.push(Step::AllowKey { key: 10 + j, topic: t, reg: 0 });
+                triples.insert((10 + j, t, 0));
+            }
+            steps.push(Step::AllowKey { key: 60, topic: t, reg: 0 });
+            for _ in 0..3 {
+                steps.push(Step::AllowKey { key: 10 + rng.below(50) as u32, topic: t, reg: 1 + rng.below(4) as u32 });
+            }
+            let gone = 10 + rng.below(50) as u32;
+            steps.push(Step::RemoveKey { key: gone, topic: t, reg: 0 });
+            steps.push(Step::AllowKey { key: 61, topic: t, reg: 2 });
+            steps.push(Step::AllowKey { key: 62, topic: t, reg: 2 });
+        }
         for _ in 0..nsteps {
             let pick_present = |rng: &mut Rng, p: &BTreeSet<u32>, u: u32| -> u32 {
                 if p.is_empty() || rng.chance(12) { rng.below(u as u64) as u32 } else {
@@ -589,6 +607,7 @@ impl Check for Registries {
                             let keys_in_topic: BTreeSet<u32> = m.iter().filter(|t| t.1 == *topic).map(|t| t.0).collect();
                             let x = !m.contains(&(*key, *topic, *reg)) && per_key < 20 && (keys_in_topic.contains(key) || keys_in_topic.len() < 50);
                             if per_key == 19 && !m.contains(&(*key, *topic, *reg)) { st.hit("probe.registry_limit_reached"); }
+                            if keys_in_topic.len() == 50 { st.hit(if keys_in_topic.contains(key) { "probe.full_topic_existing_key_again" } else { "probe.keys_per_topic_limit_reached" }); }
                             if x { m.insert((*key, *topic, *reg)); }
                             ("allow_key", g, x)
                         }
@@ -608,7 +627,11 @@ impl Check for Registries {
                     if !got && w.storage_digest(&[&id]) != before {
                         return Err(violation("fail.no_trace", kind, i, format!("{s:?}")));
                     }
-                    for k in 0..3u32 {
+                    // the three everyday keys plus, in the limit scenario, the first / last / overflow keys and whatever the step named
+                    let mut ks: std::vec::Vec<u32> = vec![0, 1, 2];
+                    if m.iter().any(|x| x.0 >= 10) { ks.extend([10, 59, 60, 61, 62]); }
+                    if let Step::AllowKey { key, .. } | Step::RemoveKey { key, .. } = s { if !ks.contains(key) { ks.push(*key); } }
+                    for k in ks {
                         for t in 0..5u32 {
                             let want = m.iter().any(|x| x.0 == k && x.1 == t);
                             if c.allowed_topic(&pk(k), &1, &t) != want {
